@@ -78,3 +78,14 @@ Fixpoint str_all (f : ascii -> bool) (s : string) : bool :=
   match s with EmptyString => true | String c r => f c && str_all f r end.
 Fixpoint str_drop (n : nat) (s : string) : string :=
   match n, s with O, _ => s | S k, String _ r => str_drop k r | _, EmptyString => EmptyString end.
+
+(* str.isdigit() on ASCII strings: non-empty and all characters are decimal digits *)
+Definition str_isdigit (s : string) : bool := negb (String.eqb s EmptyString) && str_all is_digit s.
+
+Fixpoint str_rev_aux (s acc : string) : string :=
+  match s with EmptyString => acc | String c r => str_rev_aux r (String c acc) end.
+Definition str_rev (s : string) : string := str_rev_aux s EmptyString.
+(* s.endswith(suf) *)
+Definition str_endswith (suf s : string) : bool := str_startswith (str_rev suf) (str_rev s).
+(* s[:-n] for n > 0 (Python clamps: a string shorter than n gives "") *)
+Definition str_drop_end (n : nat) (s : string) : string := str_rev (str_drop n (str_rev s)).
